@@ -111,6 +111,39 @@ check('C08', 'model_checking',
       'TLC behaviours + code->spec trace validation; data-driven image check',
       'tlc-data')
 
+check('C12', 'model_checking',
+      'Batch.tla models BatchSimulation with one action per interruptible '
+      'step (load, three list appends + increment per trial, save '
+      'enter/begin/open/write/close/rename, KeyboardInterrupt with the '
+      'retry-once handler, process kill, restart with grown spec / larger '
+      'target).  TLC explores the atomic-save design exhaustively (189 762 '
+      'states, plain and gzip) for Completes, ExactCounts, NoDup, NoForeign, '
+      'LoadAdoptsLastGood, PrefixKept and refutes the non-atomic variants.  '
+      'Behaviours generated by TLC (<= 3 process runs, one planned fault per '
+      'run at a named control point) are replayed on the real '
+      'BatchSimulation in forked children with the fault injected at that '
+      'point; after every process end the projected results file and memory '
+      'are compared with the specification state.',
+      'DESIGN.md 4/C12',
+      'Trusted: TLC; stub run_once issuing unique trial ids; kills realised '
+      'by os._exit at byte-stream points (no power-loss reordering).',
+      'TLA+ state machine (Batch.tla) model-checked + spec->code replay of '
+      'TLC behaviours with fault injection at modelled control points',
+      'tlc-data')
+
+check('C14', 'model_checking',
+      'Parallel.tla transcribes run-parallel\'s task/trial arithmetic; TLC '
+      'proves totals, >=1 trial per task and coverage of every input on the '
+      'whole grid I<=6,N<=4,C<=8,T<=64 and refutes the snapshot\'s remainder '
+      'rule.  The real command is driven for every grid configuration and '
+      'job index with Process/cpu_count substituted; TLC judges the recorded '
+      'tasks (C14_Data.tla).',
+      'DESIGN.md 4/C14',
+      'Trusted: TLC; substitution of multiprocessing in panqec.cli.',
+      'TLA+ arithmetic model checked exhaustively + spec->code grid replay '
+      'through the real CLI callback',
+      'tlc-data')
+
 
 def build():
     checks = []
